@@ -138,6 +138,8 @@ def check_lift(spec, ctx):
             eb = edited_blocks(g, blocks, variants)
             if not eb:
                 ctx.true("sequenceless_lift_deleted", l0 is EmptyLocation() or l0.is_empty or len(l0) == 0, repr(l0))
+            elif l0.is_empty:
+                ctx.fail("sequenceless_lift_positions", {"got": [], "expected": sorted(rm.posset([(a, b) for a, b, _ in eb]))})
             else:
                 ctx.eq("sequenceless_lift_positions", sorted(rm.posset(rm.loc_blocks(l0))), sorted(rm.posset([(a, b) for a, b, _ in eb])))
                 ctx.eq("sequenceless_lift_strand", rm.loc_strand(l0), strand)
